@@ -58,6 +58,7 @@ structure D where
   bad : Bool := false
   backend : String := "poll"  -- epoll: reactor::select is a system call (EBADF on a closed descriptor); select: select() fails with EBADF while a closed descriptor is registered
   stale : Nat := 0            -- number of setter functors that ran after their descriptor had been closed
+  staleTc : Nat := 0          -- deadline_timer::cancel() with an event id that has already fired, while other timers are armed
 
 def codeOf : String → Option Code
   | "ok" => some .ok | "canceled" => some .canceled | "selfail" => some .selectFailed
@@ -112,7 +113,8 @@ def doOp (d : D) : SOp → D
   | .tc k =>
     -- deadline_timer::cancel(): only if event_id_ != -1
     match (d.tobjs.getD k {}).eventId with
-    | some slot => { d with st := opStep d.st (.cancelTimer slot),
+    | some slot => { d with staleTc := d.staleTc + (if !slotBusy d.st.timers slot && !d.st.timers.isEmpty then 1 else 0),
+                            st := opStep d.st (.cancelTimer slot),
                             tobjs := d.tobjs.set k { (d.tobjs.getD k {}) with eventId := none } }
     | none => d
   | .arm f e p => noteIssue { d with st := opStep d.st (.setIo (sockFd d f) e true .sysErr) } d.st.next p none
@@ -216,7 +218,7 @@ def render (d : D) : String :=
     | some t => s!"{i}:{kindStr t.kind}"
     | none => s!"{i}:?"
   let ph := if !d.started then "notrunning" else phaseStr d.st.phase
-  s!"log {" ".intercalate logs} | alive {" ".intercalate ((sortNat (aliveToks d.st)).map toString)} | kinds {" ".intercalate kinds} | phase {ph} | lost {d.st.lost.length} | stale {d.stale}"
+  s!"log {" ".intercalate logs} | alive {" ".intercalate ((sortNat (aliveToks d.st)).map toString)} | kinds {" ".intercalate kinds} | phase {ph} | lost {d.st.lost.length} | stale {d.stale + d.staleTc}"
 
 def runLoopCase (backend : String) (ws : List String) : String :=
   match ws with
@@ -278,6 +280,20 @@ def runPoolCase (ws : List String) : String :=
     | none => "bad-op"
   | _ => "bad-op"
 
+/-! ### stale timer id (known finding aio-stale-timer-id-cancels-other-timer) -/
+
+/-- timer A (deadline now) expires and is queued; before its waiter runs, another timer B is armed and the
+slot search returns A's old slot (it is free); `A.cancel()` then passes the stale id -/
+def staleTimerCase : String :=
+  let l : Act := .loop {}
+  let s := run init [l, l, .op (.setTimer 0 5), l, l, l,        -- A armed, expired by the next run_one, queued
+                     .op (.setTimer 200 5),                     -- B gets the same slot
+                     .op (.cancelTimer 5),                      -- A.cancel(): stale id
+                     l, l, l, l, l, l, l, l]
+  let a := (s.log.filter (fun e => e.tok.id == 0)).map (fun e => codeStr e.code)
+  let b := (s.log.filter (fun e => e.tok.id == 1 && e.code == .canceled)).length
+  s!"A {a.length}:{" ".intercalate a} B-canceled {b}"
+
 /-! ### judges -/
 
 def parseObs (w : String) : Option Spec.Obs :=
@@ -322,6 +338,7 @@ def stepLine (backend : String) (_ : Unit) (line : String) : Unit × String :=
     | "J" :: rest => judgeLoop rest
     | "JK" :: rest => judgePool rest
     | "C" :: _ => "ok"   -- free-running concurrency case: judged on the implementation only
+    | "X" :: _ => staleTimerCase
     | _ => "bad-op"
   ((), r)
 
